@@ -67,11 +67,11 @@ def cases(tier, seed):
     for site in SITES:
         for i in range(n):
             out.append({"name": "fault.site/%s/%d" % (site, i), "kind": "plan", "site": site, "idx": i})
-    cap = 20 if tier == "quick" else None
+    cap = None
     for site in ("callable", "should_retry", "sleep_time", "poll_fn", "map_fn"):
         for direction in ("fault|cancel", "cancel|fault"):
             out.append({"name": "fault.sweep/%s/%s" % (site, direction), "kind": "sweep", "site": site, "dir": direction, "cap": cap})
-    out.append({"name": "fault.sweep-worker/poll_fn", "kind": "wsweep", "cap": 40 if tier == "quick" else None})
+    out.append({"name": "fault.sweep-worker/poll_fn", "kind": "wsweep", "cap": None})
     out.append({"name": "fault.blocked-submit/count_fn", "kind": "blockedcount"})
     for first in ("fail", "complete"):
         out.append({"name": "fault.depth2/retry/%s" % first, "kind": "depth2", "first": first, "budget": 150 if tier == "quick" else 3000})
